@@ -14,7 +14,7 @@ POOLS = {
     "str": ["p", "q", "r", "s", "t"],
 }
 KINDS = [("scalar", 6), ("tuple2", 2), ("array", 2), ("bool", 1), ("str", 1),
-         ("dict", 1), ("int", 1), ("ndarray", 1), ("intarray", 1)]
+         ("dict", 1), ("int", 1), ("ndarray", 1), ("intarray", 1), ("npscalar", 1), ("complex", 1)]
 
 
 class Scenario:
@@ -89,6 +89,20 @@ def gen_sweep(tape, max_n=40, kinds=None, allow_cases=True, max_args=4):
     for nm in tape.subset(["k", "m"], "consts", 1, 3):
         constants[nm] = tape.pick([3, 6, 9], "constval")
     return Sweep(kind, combos, cases, constants)
+
+
+def spell_values(tape, vals, as_tuple=False, label="vals-as"):
+    """The container a caller passes an argument's values in: list / tuple, and
+    sometimes a numpy array (np.linspace / np.arange style) or a range."""
+    import numpy as np
+
+    vals = list(vals)
+    how = tape.choose(6, label)
+    if how == 4 and len({type(v) for v in vals}) == 1:
+        return np.array(vals)
+    if how == 5 and all(type(v) is int for v in vals) and vals == list(range(vals[0], vals[0] + len(vals))):
+        return range(vals[0], vals[0] + len(vals))
+    return tuple(vals) if as_tuple else vals
 
 
 def gen_batching(tape, N, label="batching"):
